@@ -161,7 +161,7 @@ def property_theorems(module_file):
 def go_test(ctx, pkg, run_re, overlay, env_extra, timeout=900, extra_args=()):
     env = dict(GOENV)
     env.update(env_extra)
-    cmd = ['go', 'test', '-overlay', overlay, '-vet=off', '-count=1', '-run', run_re] + list(extra_args) + [pkg]
+    cmd = ['go', 'test', '-overlay', overlay, '-vet=off', '-count=1', '-timeout', '%ds' % max(60, timeout - 30), '-run', run_re] + list(extra_args) + [pkg]
     return run(cmd, cwd=REPO, env=env, timeout=timeout)
 
 
